@@ -73,3 +73,118 @@ Definition chk_c08 (e : entry) (files : list ast) (impl : sx) (tables : list err
 
 (* diagnostics: the model's own observation, printed when a case disagrees *)
 Definition show_model (e : entry) (files : list ast) : sx := model_front e files.
+
+(* plan correspondence: [front agree; class agree; plans agree] *)
+Require Import Plan PlanObs.
+Definition chk_plans (e : entry) (files : list ast) (impl impl_plans : sx) : list N :=
+  let o := front e Debug files in
+  let m := sx_outcome sx_mir o in
+  [b2n (outcome_agree m impl); b2n (class_agree m impl);
+   b2n (match o with Ok mir => sx_eqb (sx_plans mir) impl_plans | _ => true end)].
+Definition show_plans (e : entry) (files : list ast) : sx :=
+  match front e Debug files with Ok mir => sx_plans mir | _ => SL [] end.
+
+(* ---- C02 ---- *)
+Require Import spec.Spec_C02 proofs.C02Proofs.
+
+Definition find_mfunc (mir : list mtop) (iface meth : string) : option mfunc :=
+  match find (fun t => match t with MTIface i => String.eqb (mi_name i) iface | _ => false end) mir with
+  | Some (MTIface top) =>
+      find (fun f => String.eqb (mf_name f) meth)
+           (flat_map (fun x => mnode_funcs (mi_nodes x)) (mi_chain top))
+  | _ => None
+  end.
+
+Definition envelope := ((N * N * N * N) * list N)%type.
+
+Definition model_envelope (f : mfunc) : option envelope :=
+  match counter Debug (mf_params f) with
+  | Ok c => Some ((nbi c, nbo c, noi c, noo c), plan_secs (mf_params f))
+  | _ => None
+  end.
+
+Definition over_limit (kinds : list N) : bool :=
+  existsb (fun k => 15 <? mult k kinds) [0; 1; 2; 3].
+
+Definition envelope_eqb (a b : envelope) : bool :=
+  quad_eqb (fst a) (fst b) && list_eqb N.eqb (snd a) (snd b).
+
+(* 0 canonical; 1 violation outside every known class; 2 K_interleave; 3 K_objarr_after_out; 4 K_no_limit *)
+Definition classify_env (f : mfunc) (e : envelope) : N :=
+  if envelope_canonical (fst e) (snd e) then 0 else
+  match model_envelope f with
+  | Some m =>
+      let mbad := negb (envelope_canonical (fst m) (snd m)) in
+      if mbad && has_objstruct_value (mf_params f) then 2
+      else if mbad && objarr_after_out (mf_params f) then 3
+      else if mbad && over_limit (snd m) then 4
+      else 1
+  | None => 1
+  end.
+
+Definition count_eq (k : N) (l : list N) : N := N.of_nat (List.length (filter (N.eqb k) l)).
+
+(* the implementation's envelope, decoded from its own observation: Counter fields and the
+   visitor event trace (codes of harness/src/plan.rs); object-bearing structs contribute
+   one object slot per entry of StructInner::objects() *)
+Definition event_kinds (ev : sx) : list N :=
+  match sx_list ev with
+  | SA code :: rest =>
+      let objs := N.of_nat (List.length (sx_list (nth 3 rest (SL [])))) in
+      let cnt := sx_n (nth 2 rest (SA 0)) in
+      match Z.to_N code with
+      | 0 | 1 | 2 | 3 | 4 => [0]
+      | 5 | 6 => 0 :: repeat 2 (N.to_nat objs)
+      | 7 => [2]
+      | 8 => repeat 2 (N.to_nat cnt)
+      | 10 | 11 | 12 | 13 | 14 => [1]
+      | 15 | 16 => 1 :: repeat 3 (N.to_nat objs)
+      | 17 => [3]
+      | 18 => repeat 3 (N.to_nat cnt)
+      | _ => [9]
+      end
+  | _ => [9]
+  end.
+
+(* plan observation: SL [SS top; SS from; SL [SS name; sorted; counts; events]] *)
+Definition impl_envelopes (plans : sx) : list (string * string * option envelope) :=
+  map (fun p =>
+         let pl := sx_nth p 2 in
+         let c := sx_list (sx_nth pl 2) in
+         (sx_str (sx_nth p 0), sx_str (sx_nth pl 0),
+          match c with
+          | [a; b; c'; d] => Some ((sx_n a, sx_n b, sx_n c', sx_n d),
+                                   flat_map event_kinds (sx_list (sx_nth pl 3)))
+          | _ => None        (* Counter panicked *)
+          end)) (sx_list plans).
+
+Definition raw_kind (k : N) : N := if k <? 2 then 0 else 1.
+
+(* [front agree; class agree; plans agree; #scraped stub envelopes whose counts or raw slot
+    kinds differ from the model's; #canonical; #violations; #K_interleave; #K_objarr_after_out;
+    #K_no_limit]  — the Spec is evaluated on the implementation's own envelopes *)
+Definition chk_c02 (e : entry) (files : list ast) (impl impl_plans : sx)
+           (envs : list (string * string * envelope)) : list N :=
+  let o := front e Debug files in
+  let m := sx_outcome sx_mir o in
+  match o with
+  | Ok mir =>
+      let cls := flat_map (fun x => let '(i, mth, oenv) := x in
+                        match find_mfunc mir i mth, oenv with
+                        | Some f, Some env => [classify_env f env]
+                        | None, Some _ => [1]
+                        | _, None => []
+                        end) (impl_envelopes impl_plans) in
+      let l1bad := filter (fun x => let '(i, mth, env) := x in
+                        match find_mfunc mir i mth with
+                        | Some f => match model_envelope f with
+                                    | Some me => negb (envelope_eqb (fst me, map raw_kind (snd me)) env)
+                                    | None => true end
+                        | None => true
+                        end) envs in
+      [b2n (outcome_agree m impl); b2n (class_agree m impl);
+       b2n (sx_eqb (sx_plans mir) impl_plans);
+       N.of_nat (List.length l1bad);
+       count_eq 0 cls; count_eq 1 cls; count_eq 2 cls; count_eq 3 cls; count_eq 4 cls]
+  | _ => [b2n (outcome_agree m impl); b2n (class_agree m impl); 1; 0; 0; 0; 0; 0; 0]
+  end.
